@@ -63,6 +63,9 @@ fn child_main() -> ! {
             "allowed" => Some((build_request("GET", "/metadata/instance?api-version=2021-02-01", &[("Host", b"h"), ("Metadata", b"true")], None, None), Some(AuditRec::to(world::IMDS, 0, my_pid, true)))),
             "wireserver" => Some((build_request("GET", "/machine?comp=goalstate", &[("Host", b"h"), ("x-ms-version", b"2012-11-30")], None, None), Some(AuditRec::to(world::WS, 0, my_pid, true)))),
             "denied" => Some((build_request("GET", "/machine?comp=goalstate", &[("Host", b"h")], None, None), Some(AuditRec::to(world::WS, 1001, my_pid, false)))),
+            // signed requests the host itself refuses (a key the host no longer accepts, a resource it protects)
+            "host-says-403" => Some((build_request("GET", "/machine?comp=refuse403", &[("Host", b"h"), ("x-ms-version", b"2012-11-30")], None, None), Some(AuditRec::to(world::WS, 0, my_pid, true)))),
+            "host-says-401" => Some((build_request("POST", "/machine?comp=refuse401", &[("Host", b"h")], Some(b"<x/>"), None), Some(AuditRec::to(world::WS, 0, my_pid, true)))),
             "direct" => Some((build_request("GET", "/x", &[("Host", b"h")], None, None), None)),
             "provision" => Some((build_request("GET", "/provision", &[("Host", b"h"), ("Metadata", b"true"), ("x-ms-azure-time_tick", b"1")], None, None), None)),
             "provision-notify" => Some((build_request("GET", "/provision", &[("Host", b"h"), ("Metadata", b"true"), ("x-ms-azure-notify", b"true"), ("x-ms-azure-time_tick", b"99999999999999999999999")], None, None), None)),
@@ -249,6 +252,10 @@ fn start_host(sh: Arc<Shared>) -> MockHost {
                 host.latched = Some(i);
             }
             Action::Reply(vec![simple_response(200, &[], b"")])
+        } else if t.contains("refuse403") {
+            Action::Reply(vec![simple_response(403, &[], b"forbidden")])
+        } else if t.contains("refuse401") {
+            Action::Reply(vec![simple_response(401, &[], b"unauthorized")])
         } else {
             Action::Reply(vec![simple_response(200, &[("Content-Type", "text/xml")], b"<GoalState></GoalState>")])
         }
@@ -478,7 +485,7 @@ fn main() {
         histories.retain(|h| h.0.iter().map(|e| format!("{:?}", e)).collect::<Vec<_>>() == want && json!(h.1) == doc["case"]["key_dir_prestate"]);
     }
 
-    let client_kinds = ["allowed", "wireserver", "denied", "direct", "provision", "provision-notify"];
+    let client_kinds = ["allowed", "wireserver", "denied", "direct", "provision", "provision-notify", "host-says-403", "host-says-401"];
     let mut evals = 0u64;
     let mut nontrivial = std::collections::BTreeSet::new();
     let mut keys_issued_total = 0u64;
@@ -662,7 +669,7 @@ fn main() {
     res.cov("histories", histories.len() as u64);
     res.cov("keys_issued", keys_issued_total);
     res.cov("exhaustive", true);
-    res.cov("rule", "histories of host events over {enable, disable, rotate, no-op poll, agent restart} and one-shot faults that carry key material (acquire answered with the key but a missing field / trailing garbage / a non-hex key / a well-formed hex key of 128 or 512 bits, 500 with the key in the body, a status document that fails validation, attest 500), with the key directory absent or left over with mode 0755, with chown/chmod on the key directory answering 0.7 s late (strace delay injection), or with the directory owned by another user and chown refused with EPERM, or with the configured folder being a symbolic link to a 0755 directory, or removed by the environment while the agent runs (before the first latch / before a rotation), or with the stored key files damaged but still containing the key (bytes appended / closing brace lost) before a restart; the whole agent (real start_service, loggers at Trace, production paths) runs as a child process in lock-step with the mock host; after every poll six client requests (allowed IMDS, WireServer, denied, direct, /provision, /provision with notify); afterwards every file under the log/event/status/key directories (key files excepted) and under /tmp, /var/tmp, /dev/shm, /run, stdout/stderr, /dev/console and all client responses are searched for every secret issued (hex any case, raw bytes); non-trivial = history in which a key was issued".to_string());
+    res.cov("rule", "histories of host events over {enable, disable, rotate, no-op poll, agent restart} and one-shot faults that carry key material (acquire answered with the key but a missing field / trailing garbage / a non-hex key / a well-formed hex key of 128 or 512 bits, 500 with the key in the body, a status document that fails validation, attest 500), with the key directory absent or left over with mode 0755, with chown/chmod on the key directory answering 0.7 s late (strace delay injection), or with the directory owned by another user and chown refused with EPERM, or with the configured folder being a symbolic link to a 0755 directory, or removed by the environment while the agent runs (before the first latch / before a rotation), or with the stored key files damaged but still containing the key (bytes appended / closing brace lost) before a restart; the whole agent (real start_service, loggers at Trace, production paths) runs as a child process in lock-step with the mock host; after every poll eight client requests (allowed IMDS, WireServer, denied, direct, /provision, /provision with notify, two signed requests the host answers with 403 / 401); afterwards every file under the log/event/status/key directories (key files excepted) and under /tmp, /var/tmp, /dev/shm, /run, stdout/stderr, /dev/console and all client responses are searched for every secret issued (hex any case, raw bytes); non-trivial = history in which a key was issued".to_string());
     res.assume("the kernel program is not attached (no kprobes here); the child installs real kernel maps for attribution like the E2 world");
     std::process::exit(res.finish());
 }
